@@ -1,7 +1,14 @@
 //! Counting global allocator with per-thread counters (the crate allocates on the calling thread).
 use std::alloc::{GlobalAlloc, Layout, System};
 use std::cell::Cell;
-use std::time::Instant;
+
+/// CPU time of the calling thread: independent of the load on the machine
+fn thread_cpu_nanos() -> u64 {
+    let mut ts = libc::timespec { tv_sec: 0, tv_nsec: 0 };
+    // SAFETY: plain syscall writing into a local struct
+    unsafe { libc::clock_gettime(libc::CLOCK_THREAD_CPUTIME_ID, &mut ts) };
+    ts.tv_sec as u64 * 1_000_000_000 + ts.tv_nsec as u64
+}
 
 thread_local! {
     static CUR: Cell<isize> = const { Cell::new(0) };
@@ -51,6 +58,7 @@ pub struct Usage {
     pub peak: usize,
     /// octets requested in total
     pub total: u64,
+    /// CPU time of the calling thread (not wall clock)
     pub nanos: u64,
 }
 
@@ -58,9 +66,9 @@ pub fn measure<T>(f: impl FnOnce() -> T) -> (T, Usage) {
     let base = CUR.with(|c| c.get());
     PEAK.with(|p| p.set(base));
     let t0 = TOTAL.with(|t| t.get());
-    let start = Instant::now();
+    let start = thread_cpu_nanos();
     let r = f();
-    let nanos = start.elapsed().as_nanos() as u64;
+    let nanos = thread_cpu_nanos() - start;
     let peak = PEAK.with(|p| p.get()) - base;
     (r, Usage { peak: peak.max(0) as usize, total: TOTAL.with(|t| t.get()) - t0, nanos })
 }
